@@ -18,6 +18,8 @@
 //                                I6  T^-1(T(p)) == p                        I7  R^-1(R(v)) == v
 //                                I8  (T o S)(p) == T(S(p))                  I9  (R_T R_S)(v) == R_T(R_S(v))
 //                                I10 T(T^-1(p)) == p                        I11 R(R^-1(v)) == v
+//                                I12 T.translation.vector == T(origin)       (public field of Isometry)
+//                                I13 T.rotation * v == R(v), vec(T.rotation * u) == R(vec u)   (public field of Isometry)
 // Derived (proved below, not assumed): a*0 == 0, cancellation laws, right-linearity of dot, |R v| == |v|,
 // unit(v).unit(v) == 1, T(a) - T(b) == R(a - b).
 // "unit-ness" of a UnitVec value is NOT assumed (Unit::new_unchecked / deserialisation / new_normalize(0) exist):
@@ -25,7 +27,11 @@
 #[verifier::external_body] #[derive(Clone, Copy)] pub struct Vector{D} { _p: [f64; {D}] }
 #[verifier::external_body] #[derive(Clone, Copy)] pub struct UnitVec{D} { _p: [f64; {D}] }
 #[derive(Clone, Copy)] pub struct Point{D} { pub coords: Vector{D} }
-#[verifier::external_body] #[derive(Clone, Copy)] pub struct Iso{D} { _p: [f64; 9] }
+// Isometry { rotation, translation: Translation { vector } } with nalgebra's public fields (a closed-form rewrite of a
+// transform may read `iso.translation.vector` / `iso.rotation`); the rotation stays opaque
+#[verifier::external_body] #[derive(Clone, Copy)] pub struct Rot{D} { _p: [f64; 9] }
+#[derive(Clone, Copy)] pub struct Translation{D} { pub vector: Vector{D} }
+#[derive(Clone, Copy)] pub struct Iso{D} { pub rotation: Rot{D}, pub translation: Translation{D} }
 
 pub uninterp spec fn v_zero() -> Vector{D};
 pub uninterp spec fn v_add(a: Vector{D}, b: Vector{D}) -> Vector{D};
@@ -41,7 +47,13 @@ pub uninterp spec fn iso_u(t: Iso{D}, u: UnitVec{D}) -> UnitVec{D}; // Isometry 
 pub uninterp spec fn iso_inv(t: Iso{D}) -> Iso{D};
 pub uninterp spec fn iso_mul(t: Iso{D}, s: Iso{D}) -> Iso{D};
 
+pub uninterp spec fn rot_v(r: Rot{D}, v: Vector{D}) -> Vector{D};    // Rotation * Vector
+pub uninterp spec fn rot_u(r: Rot{D}, u: UnitVec{D}) -> UnitVec{D};  // Rotation * Unit<Vector>
+
 pub open spec fn v_neg(v: Vector{D}) -> Vector{D} { v_scale(v, -1real) }
+pub open spec fn p_origin() -> Point{D} { Point{D} { coords: v_zero() } }
+// the translation part of T: the image of the origin
+pub open spec fn iso_t(t: Iso{D}) -> Vector{D} { iso_p(t, p_origin()).coords }
 pub open spec fn v_sub(a: Vector{D}, b: Vector{D}) -> Vector{D} { v_add(a, v_neg(b)) }
 pub open spec fn p_from(v: Vector{D}) -> Point{D} { Point{D} { coords: v } }
 pub open spec fn p_sub(a: Point{D}, b: Point{D}) -> Vector{D} { v_sub(a.coords, b.coords) }
@@ -77,12 +89,17 @@ pub broadcast axiom fn ax_iso_mul_v(t: Iso{D}, s: Iso{D}, v: Vector{D}) ensures 
 pub broadcast axiom fn ax_iso_inv_p2(t: Iso{D}, p: Point{D}) ensures #[trigger] iso_p(t, iso_p(iso_inv(t), p)) == p;
 pub broadcast axiom fn ax_iso_inv_v2(t: Iso{D}, v: Vector{D}) ensures #[trigger] iso_v(t, iso_v(iso_inv(t), v)) == v;
 
+pub broadcast axiom fn ax_iso_translation(t: Iso{D}) ensures #[trigger] t.translation.vector == iso_t(t);
+pub broadcast axiom fn ax_iso_rotation_v(t: Iso{D}, v: Vector{D}) ensures #[trigger] rot_v(t.rotation, v) == iso_v(t, v);
+pub broadcast axiom fn ax_iso_rotation_u(t: Iso{D}, u: UnitVec{D}) ensures #[trigger] u_vec(rot_u(t.rotation, u)) == iso_v(t, u_vec(u));
+
 // broadcast by default in units: only the rewriting-to-smaller-terms axioms (no AC / distributivity: those are
 // invoked explicitly by the lemmas below)
 pub broadcast group vec{D}_axioms {
     ax_add_zero, ax_scale_scale, ax_scale_one, ax_dot_sym, ax_dot_add, ax_dot_scale, ax_norm_nonneg, ax_norm_sq,
     ax_unit_vec, ax_u_neg, ax_iso_p_add, ax_iso_v_add, ax_iso_v_scale, ax_iso_dot, ax_iso_u,
     ax_iso_inv_p, ax_iso_inv_v, ax_iso_mul_p, ax_iso_mul_v, ax_iso_inv_p2, ax_iso_inv_v2,
+    ax_iso_translation, ax_iso_rotation_v, ax_iso_rotation_u,
 }
 
 // ---------------------------------------------------------------- derived facts (PROVED from the axioms above)
@@ -204,6 +221,23 @@ pub proof fn lemma_iso_p_subv(t: Iso{D}, p: Point{D}, v: Vector{D})
 {
     ax_iso_p_add(t, p, v_neg(v));
     ax_iso_v_scale(t, v, -1real);
+}
+// T(p) == T(origin) + R(p - origin):  the coordinates of a moved point are translation part + rotated coordinates
+pub proof fn lemma_iso_p_decomp(t: Iso{D}, p: Point{D})
+    ensures iso_p(t, p).coords == v_add(iso_t(t), iso_v(t, p.coords))
+{
+    ax_add_comm(v_zero(), p.coords);
+    ax_add_zero(p.coords);
+    assert(p == p_add(p_origin(), p.coords));
+    ax_iso_p_add(t, p_origin(), p.coords);
+}
+// (R n).(T p) == n.p + (R n).t :  how the offset of a plane / the scalar projection on a rotated direction moves
+pub proof fn lemma_iso_dot_moved(t: Iso{D}, n: Vector{D}, p: Point{D})
+    ensures v_dot(iso_v(t, n), iso_p(t, p).coords) == v_dot(n, p.coords) + v_dot(iso_v(t, n), iso_t(t))
+{
+    lemma_iso_p_decomp(t, p);
+    lemma_dot_add_right(iso_v(t, n), iso_t(t), iso_v(t, p.coords));
+    ax_iso_dot(t, n, p.coords);
 }
 // ---------------------------------------------------------------- exec operators (nalgebra), spec = the functions above
 impl SubSpecImpl<Point{D}> for Point{D} {
@@ -383,6 +417,20 @@ impl NegSpecImpl for Vector{D} {
 }
 impl core::ops::Neg for Vector{D} { type Output = Vector{D};
     #[verifier::external_body] fn neg(self) -> (r: Vector{D}) { unimplemented!() } }
+impl MulSpecImpl<Vector{D}> for Rot{D} {
+    open spec fn obeys_mul_spec() -> bool { true }
+    open spec fn mul_req(self, rhs: Vector{D}) -> bool { true }
+    open spec fn mul_spec(self, rhs: Vector{D}) -> Vector{D} { rot_v(self, rhs) }
+}
+impl core::ops::Mul<Vector{D}> for Rot{D} { type Output = Vector{D};
+    #[verifier::external_body] fn mul(self, rhs: Vector{D}) -> (r: Vector{D}) { unimplemented!() } }
+impl MulSpecImpl<UnitVec{D}> for Rot{D} {
+    open spec fn obeys_mul_spec() -> bool { true }
+    open spec fn mul_req(self, rhs: UnitVec{D}) -> bool { true }
+    open spec fn mul_spec(self, rhs: UnitVec{D}) -> UnitVec{D} { rot_u(self, rhs) }
+}
+impl core::ops::Mul<UnitVec{D}> for Rot{D} { type Output = UnitVec{D};
+    #[verifier::external_body] fn mul(self, rhs: UnitVec{D}) -> (r: UnitVec{D}) { unimplemented!() } }
 // Point::from(vector) / vector.into()
 impl vstd::std_specs::convert::FromSpecImpl<Vector{D}> for Point{D} {
     open spec fn obeys_from_spec() -> bool { true }
